@@ -8,4 +8,5 @@ CONSTANTS
  ChunkLimit = 6
  RetryLimit = 10
  HttpRetries = 5
+ IgnoreInvalidDigest = TRUE
 INVARIANTS O2Strict
